@@ -30,6 +30,26 @@ PLACEMENTS = [
     ("await", "    {E}.await;\n"),
     ("await-try", "    {E}.await?;\n"),
     ("deep-mix", "    for _i in 0..n {{\n        if flag {{\n            match n {{\n                1 => {{\n                    {E}.ok();\n                }}\n                _ => {{}}\n            }}\n        }}\n    }}\n"),
+    # blocks that are not control flow, and expression positions inside the body
+    ("unsafe-block", "    unsafe {{\n        {E}.unwrap();\n    }}\n"),
+    ("closure-block-spawned", "    std::thread::spawn(move || {{\n        {E}.unwrap();\n    }});\n"),
+    ("async-block-spawned", "    tauri::async_runtime::spawn(async move {{\n        {E}.unwrap();\n    }});\n"),
+    ("closure-in-method-argument", "    (0..n).for_each(|_i| {{\n        {E}.ok();\n    }});\n"),
+    ("closure-expression-body", "    let _f = move || {E};\n"),
+    ("if-let-scrutinee", "    if let Err(e) = {E} {{\n        eprintln!(\"{{}}\", e);\n    }}\n"),
+    ("match-scrutinee", "    match {E} {{\n        Ok(_) => {{}}\n        Err(_) => {{}}\n    }}\n"),
+    ("if-condition", "    if {E}.is_ok() {{\n        let _z = 1;\n    }}\n"),
+    ("while-condition", "    while {E}.is_err() {{\n        break;\n    }}\n"),
+    ("call-argument", "    report({E});\n"),
+    ("parenthesised", "    ({E}).unwrap();\n"),
+    ("return-expression", "    return {E};\n"),
+    ("tail-expression", "    {E}\n"),
+    ("binary-operand", "    let _ok = flag && {E}.is_ok();\n"),
+    ("tuple-element", "    let _t = ({E}, 1);\n"),
+    ("struct-field-initialiser", "    let _s = Outcome {{ result: {E} }};\n"),
+    ("reference-of", "    let _r = &{E};\n"),
+    ("match-guard", "    match n {{\n        0 if {E}.is_ok() => {{}}\n        _ => {{}}\n    }}\n"),
+    ("for-iterator-expression", "    for _x in {E} {{\n    }}\n"),
 ]
 RECEIVERS = [
     ("app-var", "app", "app: AppHandle"),
@@ -134,7 +154,7 @@ def emit_fn(fname, placement, receiver, method, evname, form, is_async=False, re
     params = [rparam, "flag: bool", "n: usize"] + ([fparam] if fparam else [])
     needs_try = "?" in ptmpl
     needs_await = ".await" in ptmpl
-    ret = " -> Result<(), tauri::Error>" if needs_try else ""
+    ret = " -> Result<(), tauri::Error>" if needs_try or plabel in ("return-expression", "tail-expression") else ""
     body = setup + ptmpl.replace("{E}", call).replace("{{", "{").replace("}}", "}")
     if needs_try:
         body += "    Ok(())\n"
